@@ -203,6 +203,15 @@ class Run(object):
                         bestE=sn['bestE'], gen0=gen0, solver=cfg['solver'])
             if msg:
                 break
+        if self.focus == 'c03' and self.cons_from_start and self.cons is not None:
+            # the recorded solution history of the run: every recorded best satisfies the constraints
+            hist = [[float(v) for v in np.ravel(x)] for x in s.solution_history]
+            ehist = [K.fnum(e) for e in s.energy_history]
+            bad = [i for i, x in enumerate(hist) if self.cons(x) != x and i < len(ehist) and math.isfinite(ehist[i])]
+            o.check(not bad, 'c03:every solution recorded in the history satisfies the constraints', solver=cfg['solver'], cons=self.cons_spec,
+                    bad_records=bad[:5], nrecords=len(hist), first_bad=hist[bad[0]] if bad else None,
+                    final_record_ok=(not hist) or self.cons(hist[-1]) == hist[-1] or not math.isfinite(ehist[-1]),
+                    mode=None if self.box is None else [self.box.get('tight'), self.box.get('clip')])
         o.event('cost_calls', self.probe.n)
         o.event('constraint_altered', self.altered)
         o.notes = {'steps_run': snaps, 'cost_calls': self.probe.n, 'stop': msg, 'best_changes': nbest_changes,
